@@ -11,6 +11,7 @@ mod misc;
 mod offsets;
 mod names;
 mod config;
+mod reach;
 
 fn main() {
     let args: Vec<String> = std::env::args().collect();
